@@ -107,7 +107,7 @@ class ReplayStats(object):
 
 def replay_validate(ctx, name, driver_mod, driver_args, behaviours, trace_module, trace_constants, invariants=(),
                     jobs=8, drv_timeout=1500, classify=None, env=None, trace_cfg_extra=None, max_rej_per_chunk=2,
-                    max_confirm=6):
+                    max_confirm=6, seed_base=None):
     """behaviours: list of lists of labels.  driver command:
          python -m <driver_mod> <lib> <behaviours.json> <out.ndjson> <workdir> <seed> <driver_args...>
        (driver_args[0] must be the library path).  classify(rej) may turn a confirmed rejection into a known finding:
@@ -122,6 +122,7 @@ def replay_validate(ctx, name, driver_mod, driver_args, behaviours, trace_module
     chunks = [[] for _ in range(jobs)]
     for i, b in enumerate(behaviours):
         chunks[i % jobs].append((i, b))
+    sb = ctx.seed if seed_base is None else seed_base
     wd = ctx.sub("rp-" + name)
     cfg = os.path.join(wd, "trace.cfg")
     tlc.write_cfg(cfg, spec="TSpec", constants=trace_constants, invariants=invariants, constraint="TrackMax",
@@ -135,7 +136,7 @@ def replay_validate(ctx, name, driver_mod, driver_args, behaviours, trace_module
             json.dump([b for _, b in chunks[k]], f)
         out = os.path.join(cw, "trace.ndjson")
         lib = driver_args[0]
-        rc, err = _run_driver([PY, "-m", driver_mod, lib, bfile, out, cw, str(ctx.seed + k)] + list(driver_args[1:]),
+        rc, err = _run_driver([PY, "-m", driver_mod, lib, bfile, out, cw, str(sb + k)] + list(driver_args[1:]),
                               out, drv_timeout, env)
         if not os.path.exists(out):
             raise Broken("driver produced no trace (%s): rc=%s %s" % (name, rc, err))
@@ -188,7 +189,7 @@ def replay_validate(ctx, name, driver_mod, driver_args, behaviours, trace_module
             local["rejected"].append(dict(behaviour=chunks[k][bi][1] if gi >= 0 else None, index=gi,
                                           event_no=r.matched - a, event=lines_c[r.matched].strip(),
                                           trace=[x.strip() for x in lines_c[a:min(b, r.matched + 1)]],
-                                          chunk=k, seed=ctx.seed + k))
+                                          chunk=k, seed=sb + k))
             removed.add(bi)
             nxt = os.path.join(cw, "trace-r%d.ndjson" % rounds)
             with open(nxt, "w") as f:
@@ -281,3 +282,40 @@ def report_rejections(ctx, name, st, driver_mod, driver_args, classify=None):
         ctx.violation("%s: trace rejected at event %d of behaviour %d: %s" %
                       (name, rj["event_no"], rj["index"], rj["event"][:300]), d)
     return nviol
+
+
+def graphs_replay(ctx, mc_module, trace_module, driver_mod, graphs, invariants, properties, maxlen=50, jobs=14,
+                  view="View"):
+    """graphs: [dict(name=, constants=, trace_constants=, driver_args=[lib, ...], variants=[(suffix, extra_args)])].
+    Exhaustive TLC + dump, edge-covering walks, replay, trace validation.  Returns summed statistics."""
+    out = dict(states=0, transitions=0, edges_total=0, edges_replayed=0, accepted=0, executions=0, events=0,
+               samples=[], okcount={})
+    for gr in graphs:
+        res, g = model_check(ctx, mc_module, gr["name"], gr["constants"], invariants=invariants, properties=properties,
+                             dump=True, view=view)
+        out["states"] += res.distinct
+        out["transitions"] += res.generated
+        walks, cov, tot = walker.edge_cover(g, maxlen=gr.get("maxlen", maxlen), rng=random.Random(ctx.seed))
+        out["edges_total"] += tot
+        out["edges_replayed"] += cov
+        for var in gr.get("variants", [("", [])]):
+            suffix, args = var[0], var[1]
+            soff = var[2] if len(var) > 2 else 0
+            nm = gr["name"] + suffix
+            if ctx.violations:
+                ctx.notes.append("replay of %s skipped after a violation was found" % nm)
+                continue
+            dargs = list(gr["driver_args"]) + list(args)
+            st = replay_validate(ctx, nm, driver_mod, dargs, walks, trace_module, gr["trace_constants"],
+                                 invariants=invariants, jobs=jobs, seed_base=ctx.seed + soff)
+            report_rejections(ctx, nm, st, driver_mod, dargs, classify=gr.get("classify"))
+            out["accepted"] += st.accepted
+            out["executions"] += st.executions
+            out["events"] += st.events
+            for k2, v2 in st.okcount.items():
+                c2 = out["okcount"].setdefault(k2, [0, 0])
+                c2[0] += v2[0]
+                c2[1] += v2[1]
+            if st.samples and len(out["samples"]) < 2:
+                out["samples"].append(st.samples[0])
+    return out
